@@ -50,7 +50,7 @@ theorem triDone_ch {s s' : State} {res : TRes} (hs : triDone s res = some s') : 
   repeat' split at hs
   all_goals (first | (exfalso; simp at hs; done) | (cases hs; rfl))
 
-theorem stepS_chain' {cfg : Cfg} {s s' : State} {t h : Nat} (hs : stepS cfg s t h = some s') : ChainMove cfg s s' := by
+theorem stepS_chain' {cfg : Cfg} {s s' : State} {h : Nat} (hs : stepS cfg s h = some s') : ChainMove cfg s s' := by
   unfold stepS stepS_chk stepS_chain stepS_rec stepS_nLoadS stepS_nLockS stepS_nUnlockS stepS_nUnparkS stepS_nLoadA
     stepS_nLockA stepS_nUnlockA stepS_wakeA stepS_unparkA stepS_closeChain stepS_wLockS stepS_wUnparkS stepS_wLockA
     stepS_fin at hs
@@ -58,7 +58,7 @@ theorem stepS_chain' {cfg : Cfg} {s s' : State} {t h : Nat} (hs : stepS cfg s t 
   repeat' split at hs
   all_goals proj_close hs
 
-theorem stepR_chain' {cfg : Cfg} {s s' : State} {t : Nat} (hs : stepR cfg s t = some s') : ChainMove cfg s s' := by
+theorem stepR_chain' {cfg : Cfg} {s s' : State} (hs : stepR cfg s = some s') : ChainMove cfg s s' := by
   unfold stepR at hs
   split at hs
   all_goals (try (exfalso; simp at hs; done))
